@@ -371,6 +371,44 @@ def retry_stage(ctx, tu):
     ctx.stage('retry-composition', behaviours=total)
 
 
+def time_it_stage(ctx, tu):
+    """Spec growth: timeutils.time_it decision table (spec/Misc.tla) -- the decorator is a StopWatch client."""
+    import logging
+    res = tlc.run('MC_Misc', workdir=ctx.work, workers=1)
+    ctx.tlc(res, 'Misc: time_it table, flatten_dict_to_keypairs (PairsAreLeaves)', counts_as_states=False)
+    n = 0
+    for rec in res.records:
+        c = rec['c']
+        if c['k'] != 'time_it':
+            continue
+        calls = []
+
+        class L:
+            def log(self, level, msg, args):
+                calls.append((level, msg % args))
+
+        def body():
+            _clock[0] += c['elapsed'] / 1000.0
+            if c['raises']:
+                raise KeyError('boom')
+            return 'value'
+        kw = {'enabled': c['enabled'], 'min_duration': None if c['min'] == -1 else c['min'] / 1000.0}
+        _clock[0] = 0
+        fn = tu.time_it(L(), logging.INFO, **kw)(body)
+        try:
+            out = fn()
+        except KeyError:
+            out = 'KeyError'
+        n += 1
+        want_out = 'KeyError' if c['raises'] else 'value'
+        if out != want_out or (len(calls) == 1) != rec['ref']['logged'] or len(calls) > 1:
+            ctx.violation({'kind': 'time_it', 'logged': len(calls), 'want': rec['ref']['logged']},
+                          {'case': c, 'log_calls': calls, 'result': out},
+                          'time_it %s: %d log call(s), result %s; specification logged=%s' % (c, len(calls), out, rec['ref']['logged']))
+    ctx.cov['evaluations'] += n
+    ctx.stage('time_it', cases=n)
+
+
 def run(ctx):
     tu = _impl()
     quick = ctx.quick
@@ -446,6 +484,7 @@ def run(ctx):
     ctx.sample({'code_to_spec_trace_head': {'dur': first['dur'], 'ev': first['ev'][:8]}})
 
     retry_stage(ctx, tu)
+    time_it_stage(ctx, tu)
     # 4. binding self-tests ---------------------------------------------------
     # a spec-generated trace (a walk through the exported graph), independent
     # of the implementation: must be accepted; with one result changed: rejected
